@@ -41,3 +41,24 @@ Theorem C05_clamp_power_is_source : forall power cs_cur cs_max cs_min veh_min : 
   @clamp_power_src R RNum power cs_cur cs_max cs_min veh_min = @clamp_power R RNum power cs_cur cs_max cs_min veh_min.
 Proof. intros. apply clamp_power_is_source. Qed.
 Print Assumptions C05_clamp_power_is_source.
+
+(* ---- the executable (Q) instance that is run against /repo and the proof (R) instance agree (Transfer*.v) ---- *)
+From Coq Require Import QArith Qreals.
+From SV Require Import Transfer TransferK ExecProps.
+Theorem C05_exec_model_is_proof_model : forall tbl p cur mx mn vm,
+  Q2R (@clamp_power Q (QNum tbl) p cur mx mn vm) = @clamp_power R RNum (Q2R p) (Q2R cur) (Q2R mx) (Q2R mn) (Q2R vm).
+Proof. exact clamp_power_transfer. Qed.
+Print Assumptions C05_exec_model_is_proof_model.
+Theorem C05_exec_clamp_nonneg : forall tbl p cur mx mn vm, (0 <= @clamp_power Q (QNum tbl) p cur mx mn vm)%Q.
+Proof. exact clamp_exec_nonneg. Qed.
+Print Assumptions C05_exec_clamp_nonneg.
+Theorem C05_exec_station_within_max : forall tbl p cur mx mn vm, (cur <= mx)%Q -> (cur + @clamp_power Q (QNum tbl) p cur mx mn vm <= mx)%Q.
+Proof. exact clamp_exec_within_max. Qed.
+Print Assumptions C05_exec_station_within_max.
+Theorem C05_exec_clamp_le_power : forall tbl p cur mx mn vm, (0 <= p)%Q -> (@clamp_power Q (QNum tbl) p cur mx mn vm <= p)%Q.
+Proof. exact clamp_exec_le_power. Qed.
+Print Assumptions C05_exec_clamp_le_power.
+Theorem C05_exec_positive_respects_min : forall tbl p cur mx mn vm, (0 < @clamp_power Q (QNum tbl) p cur mx mn vm)%Q ->
+  (mn <= cur + @clamp_power Q (QNum tbl) p cur mx mn vm)%Q /\ (vm <= cur + @clamp_power Q (QNum tbl) p cur mx mn vm)%Q.
+Proof. exact clamp_exec_positive_respects_min. Qed.
+Print Assumptions C05_exec_positive_respects_min.
